@@ -65,12 +65,13 @@ type xferSpec struct {
 	cut       int // >=0: the server->client stream ends after that many bytes (C04)
 	cutErr    bool
 	failWrite int  // >0: that client->server write fails (C04)
+	fwEOF     bool // failing writes report io.EOF (what a closed ssh channel does)
 	after     bool // C04: issue one more call after the transfer
 	noOffset  bool // do not judge the File offset (C01 speaks about bytes and counts; offsets are C12/C13)
 }
 
 func (s xferSpec) String() string {
-	return fmt.Sprintf("%s conc=%v P=%d K=%d file=%d req=%d off=%d fail=%v permute=%v cut=%d fw=%d", s.api, s.conc, s.P, s.K, s.fileLen, s.reqLen, s.off, s.fail, s.permute, s.cut, s.failWrite)
+	return fmt.Sprintf("%s conc=%v P=%d K=%d file=%d req=%d off=%d fail=%v permute=%v cut=%d fw=%d fwEOF=%v", s.api, s.conc, s.P, s.K, s.fileLen, s.reqLen, s.off, s.fail, s.permute, s.cut, s.failWrite, s.fwEOF)
 }
 
 func pattern(n int, base byte) []byte {
@@ -120,6 +121,9 @@ func (s xferSpec) run(res *xferResult, envOut **cliEnv) {
 			}
 		}
 		e.c2s.FailWrite = s.failWrite
+		if s.fwEOF {
+			e.c2s.FailErr = io.EOF
+		}
 	}, MaxPacketUnchecked(s.P), MaxConcurrentRequestsPerFile(s.K), UseConcurrentReads(s.conc), UseConcurrentWrites(s.conc), UseFstat(s.useFstat))
 	*envOut = env
 	if env.err != nil {
